@@ -168,6 +168,13 @@ def analyse(D: decoders.Decoders, e, run: Run, facts_out=None) -> int:
                        f"not word {p}",
                        facts=f, line=e.func.lineno,
                        witness=None if not wrong else f"START values with values[{wrong[0]}] != values[{p}] render the wrong word")
+                mixed = ("LOOKUP",) in value_atoms and bool(starts)
+                run.ob("R5", mod, scope, construct + ": a path or an argument word, not one or the other", not mixed,
+                       "" if not mixed else
+                       f"{sh.name}(): position {p} shows a looked-up path for some windows and START word {starts[0]} for others "
+                       f"({sym.pretty(t)[:80]}): which one depends on the records nested in the window, not on the call",
+                       facts=f, line=e.func.lineno, nontrivial=mixed,
+                       witness="the same call once with and once without a nested VFS_LOOKUP")
                 forbidden = []
                 for a in atoms:
                     if a[0] in ("START", "LOOKUP"):
